@@ -44,6 +44,9 @@ pub struct PropDef {
     /// thorough tier: half of the runs draw their scenarios from these other properties'
     /// profiles and are judged by this property's oracle (the oracle is written to be sound on them)
     pub extra_profiles: &'static [&'static str],
+    /// last-minute adaptation of a generated scenario (e.g. drop fault kinds a runtime flavour
+    /// does not support)
+    pub adapt: Option<fn(&mut Scenario)>,
 }
 
 pub fn all() -> Vec<PropDef> {
